@@ -799,6 +799,16 @@ fn gen_op(r: &mut Rng, env: &Env, v: &View, ctx: &mut GenCtx) -> Op {
         }
     }
     let parties: Vec<Address> = env.clients.iter().map(|c| c.0).chain(env.miners.iter().map(|m| m.id)).collect();
+    // degenerate batches: nothing to settle, no sectors, a sector without deals
+    if r.chance(1, 40) {
+        let m = &env.miners[r.below(2) as usize];
+        return match r.below(4) {
+            0 => Op::Settle { caller: env.stranger, ids: vec![] },
+            1 => Op::Activate { caller: m.id, sectors: vec![] },
+            2 => Op::Activate { caller: m.id, sectors: vec![(*r.pick(&[1u64, 2, 3]), epoch + DUR_MIN, vec![])] },
+            _ => Op::Terminate { caller: m.id, sectors: vec![] },
+        };
+    }
     let k = r.below(100);
     if k < 20 {
         let provider = r.below(2) as usize;
